@@ -201,6 +201,22 @@ class Case:
         self.bmplan = None       # outcome of every fit call, filled in after the run
         self.fitplan = None
         self.skip = None         # reason why no claim is made on this case
+        self.shift = Fr(0)       # constant offset contained in all energies (E0 of ptab and qtab)
+
+    def apply_shift(self, C):
+        """Add the constant C to all energies: E0 of every generating curve (total and electronic)."""
+        C = Fr(C)
+        for p in self.ptab:
+            p["E0"] += C
+        for q in self.qtab:
+            q["E0"] += C
+        if self.epoly:
+            self.epoly[0] += C
+        self.shift += C
+
+    @property
+    def escale(self):
+        return max([1.0] + [abs(float(p["E0"])) for p in self.ptab])
 
     @property
     def elcurve(self):
@@ -222,6 +238,7 @@ class Case:
             poly=dict(set=self.poly_set, v=[rat(c) for c in self.vpoly], e=[rat(c) for c in self.epoly]),
             cvtab=[[rat(c) for c in row] for row in self.cvtab],
             stab=[[rat(c) for c in row] for row in self.stab],
+            shift=rat(self.shift), e0base=[rat(p["E0"] - self.shift) for p in self.ptab],
             vref=self.vref, nvd=self.nvd, eldtype=self.eldtype, voldtype=self.voldtype, elcurve=self.elcurve,
             wf=bool(self.wf),
             fitplan=list(self.fitplan or ["ok"] * nT), bmplan=list(self.bmplan or ["ok"] * len(self.qtab)))
